@@ -210,11 +210,35 @@ def exec_op(op, pool, store):
                 store[op[1]][op[2]] = build_operand(op[3], pool, store)
             elif t == "read":
                 read_everything(store[op[1]] if op[1] < len(store) else None, pool)
+            elif t in ("link", "linkel"):
+                link_op(op, pool, store)
             else:
                 raise ValueError(op)
         return None
     except Exception as e:  # noqa
         return EXN.get(type(e).__name__, "Crash:" + type(e).__name__ + ":" + str(e)[:80])
+
+
+def link_op(op, pool, store):
+    """declare two measurements correlated: ["link", j1, j2, how, x] user measurements j1, j2;
+    ["linkel", k, i1, i2, how, x] two elements of array k; how = "corr" (factor x) | "cov" (x * s1 * s2).
+    Not an operation of the arrays: whatever it raises (zero uncertainty ...) is ignored"""
+    q = _q()
+    try:
+        if op[0] == "link":
+            a, b, how, x = pool[op[1]], pool[op[2]], op[3], op[4]
+        else:
+            arr = store[op[1]]
+            a, b, how, x = arr[op[2]], arr[op[3]], op[4], op[5]
+        if how == "corr":
+            q.set_correlation(a, b, x)
+        else:
+            q.set_covariance(a, b, x * a.error * b.error)
+    except Exception:  # noqa
+        pass
+
+
+HARNESS_OPS = ("read", "link", "linkel")
 
 
 def read_everything(arr, pool=()):
@@ -437,7 +461,7 @@ class SessionGen:
     def do(self, op):
         e = exec_op(op, self.pool, self.store)
         self.ops.append(op)
-        if e is not None and op[0] != "read" and self.rng.random() < 0.5:
+        if e is not None and op[0] not in HARNESS_OPS and self.rng.random() < 0.5:
             exec_op(op, self.pool, self.store)        # the same rejected call offered again
             self.ops.append(op)
         return e
@@ -496,6 +520,16 @@ class SessionGen:
             return
         if rng.random() < 0.15:      # objects are read (evaluated, printed, aggregated) before they are used again
             self.do(["read", rng.randrange(len(self.store))])
+        r = rng.random()
+        if r < 0.12 and len(self.pool) >= 2:
+            # two of the user's measurements (already inside an array, about to enter one, or outsiders) are correlated
+            a, b = rng.sample(range(len(self.pool)), 2)
+            self.do(["link", a, b, rng.choice(["corr", "cov"]), rng.choice([0.5, -0.5, 0.9, -0.9, 1, 0.25])])
+        elif r < 0.2:
+            k = rng.randrange(len(self.store))
+            if len(self.store[k]) >= 2:
+                i, j = rng.sample(range(len(self.store[k])), 2)
+                self.do(["linkel", k, i, j, rng.choice(["corr", "cov"]), rng.choice([0.5, -0.5, 0.9, -0.9, 1])])
         k = len(self.store) - 1 if rng.random() < 0.75 else rng.randrange(len(self.store))
         n = len(self.store[k])
         kind = rng.choice(["append", "append", "insert", "insert", "insert", "delete", "delete", "set", "set", "set"])
@@ -635,7 +669,7 @@ def c_eobs(e):
 
 def c_steps(steps):
     """reading is not an operation of the model: the observation after it belongs to the state the model is in"""
-    return coq_list([c_step(st) for st in steps if st[0][0] != "read"])
+    return coq_list([c_step(st) for st in steps if st[0][0] not in HARNESS_OPS])
 
 
 def c_step(step):
@@ -716,7 +750,8 @@ def correspondence(ctx):
                 ok_edits += 1
         if ok_edits >= 2:
             res.nontrivial.add(core.canonical_key("s", ops))
-    res.rule = ("sessions over one heap: initial arrays (no / common / per-element / relative uncertainties, 10% with data "
+    res.rule = ("sessions over one heap (between the edits, user measurements and array elements are declared correlated with "
+                "each other through set_correlation / set_covariance): initial arrays (no / common / per-element / relative uncertainties, 10% with data "
                 "that is large against its spread (integers around 1e5 .. 1e6), with and without "
                 "name and unit, also names ending in _<digits>) then 3-13 random edits (append / insert / delete / item "
                 "assignment; operand = number (Python int / float / bool, numpy int64 / int32 / int8 / uint8 / float64 / float32 scalar, Fraction), (value, error) pair of those, Measurement, list of those, ndarray of numbers, another "
@@ -762,12 +797,18 @@ def correspondence(ctx):
 INDEXLIKE_IN_ORACLE = True
 
 
+CUR_POOL = []
+
+
 def o_item_build(it):
     t = it[0]
     if t == "num":
         return num(it[1]), (frac(it[1]), Fraction(0))
     if t == "pair":
         return (num(it[1]), num(it[2])), (frac(it[1]), frac(it[2]))
+    if t == "pmeas":          # a measurement of the case's pool (possibly correlated with others of the pool)
+        m = CUR_POOL[it[1]]
+        return m, (frac(m.value), frac(m.error))
     if t == "meas":
         m = make_meas(it[1:5])
         if len(it) > 5:           # the measurement is printed / evaluated before it is used as an operand
@@ -918,6 +959,8 @@ def check_history_oracle(case, reset=True):
             cur = make_array(init)
     except Exception as e:  # noqa
         return "the initial array {} cannot be built: {}: {}".format(init, type(e).__name__, e)
+    global CUR_POOL
+    CUR_POOL = [make_meas(spec) for spec in case.get("pool", [])]
     model = list(zip([frac(x) for x in init[0]], expected_errors(init[0], init[1])))
     name, unit = init[2], CANON[init[3]]
     why = check_array("result of the constructor", cur, model, name, unit)
@@ -935,6 +978,12 @@ def check_history_oracle(case, reset=True):
         n = len(model)
         tag = "step {} {}".format(step, json.dumps(op))
         src, src_model = cur, list(model)
+        if t in ("link", "linkel"):        # correlations between measurements are no business of the array aggregates
+            link_op(op if t == "link" else ["linkel", 0] + list(op[1:]), CUR_POOL, [cur])
+            why = check_aggregates(cur, model)
+            if why:
+                return "after " + tag + ": " + why
+            continue
         if t == "read":          # printing / evaluating / aggregating must not change anything
             try:
                 read_everything(cur)
@@ -1092,7 +1141,45 @@ def gen_oracle_case0(rng):
         SCALE = 1
 
 
+def correlated_cases():
+    """correlated measurements entering one array through append, insert and item assignment"""
+    pool = [[5, 0.5, "", ""], [6, 0.25, "", "m"], [10, 0.5, "n", ""], [11, 0.5, "", ""], [1, 0.125, "", ""]]
+    out = []
+    for how, x in (("cov", 0.9), ("corr", -0.9), ("corr", 1), ("cov", -0.5)):
+        out.append({"init": [[1, 2, 3], ["each", [0.125, 0.25, 0.5]], "x", "m"], "pool": pool,
+                    "ops": [["link", 0, 1, how, x], ["append", ["pmeas", 0]], ["append", ["pmeas", 1]],
+                            ["link", 2, 3, how, x], ["insert", 1, ["pmeas", 2]], ["set", 3, ["pmeas", 3]],
+                            ["link", 3, 4, "corr", 0.5], ["delete", 0]]})
+        out.append({"init": [[7, 8, 9], ["common", 0.25], "", ""], "pool": pool,
+                    "ops": [["append", ["list", [["pmeas", 0], ["pmeas", 1]]]], ["link", 0, 1, how, x],
+                            ["linkel", 0, 1, how, x], ["set", 0, ["num", 4]], ["linkel", 0, -1, "corr", 0.5]]})
+    return out
+
+
 def gen_oracle_case1(rng):
+    case = gen_oracle_case2(rng)
+    if rng.random() < 0.25:
+        # some measurement operands come from a pool whose members are correlated with each other and with outsiders
+        pool = [gen_meas(rng)[1:] for _ in range(rng.randrange(2, 6))]
+        pool = [[v, e if frac(e) > 0 else scaled(0.5), nm, u] for v, e, nm, u in pool]
+        free = list(range(len(pool)))
+        rng.shuffle(free)
+        ops = []
+        for op in case["ops"]:
+            if rng.random() < 0.3:
+                a, b = rng.sample(range(len(pool)), 2)
+                ops.append(["link", a, b, rng.choice(["corr", "cov"]), rng.choice([0.5, -0.5, 0.9, -0.9, 1, -1])])
+            it = op[-1] if op[0] in ("append", "insert", "set") else None
+            if it and it[0] == "meas" and free:
+                op = op[:-1] + [["pmeas", free.pop()]]
+            ops.append(op)
+            if rng.random() < 0.15:
+                ops.append(["linkel", rng.randrange(-2, 3), rng.randrange(-2, 3), "corr", rng.choice([0.5, -0.9, 1])])
+        case["pool"], case["ops"] = pool, ops
+    return case
+
+
+def gen_oracle_case2(rng):
     init = gen_mk(rng, indexlike=INDEXLIKE_IN_ORACLE)[1:]
     n = len(init[0])
     ops = []
@@ -1187,15 +1274,20 @@ def session_to_oracle_cases(ops):
 def shrink_case(case):
     def fails(ops):
         return check_history_oracle({"init": case["init"], "ops": ops}) is not None
-    extra = {"npidx": True} if case.get("npidx") else {}
+    extra = {k: case[k] for k in ("npidx", "pool") if case.get(k)}
 
     def fails(ops):  # noqa
         return check_history_oracle(dict(extra, init=case["init"], ops=ops)) is not None
     ops = shrink_list(case["ops"], fails)
     small = dict(extra, init=case["init"], ops=ops)
-    if extra and check_history_oracle({"init": case["init"], "ops": ops}) is not None:
-        extra = {}
-        small = {"init": case["init"], "ops": ops}
+    if extra.get("npidx"):
+        less = {k: v for k, v in extra.items() if k != "npidx"}
+        try:
+            if check_history_oracle(dict(less, init=case["init"], ops=ops)) is not None:
+                extra = less
+                small = dict(extra, init=case["init"], ops=ops)
+        except Exception:  # noqa
+            pass
     # try a simpler initial array
     for init in ([[1, 2], ["common", 0.5], case["init"][2], case["init"][3]],
                  [case["init"][0], case["init"][1], case["init"][2], ""],
@@ -1241,6 +1333,7 @@ def search(ctx, suspects, budget):
     todo += [c["case"] for c in load_corpus() if c.get("kind") == "history"]
     todo += typed_number_cases()
     todo += offset_cases()
+    todo += correlated_cases()
     n = 0
     limit = ctx.n(400, 20000)
     since = []          # what ran since the library was last imported afresh: {"case": history, "keep": no reset before it}
